@@ -173,7 +173,12 @@ pub fn run_prop(ctx: &Ctx, sink: &mut Sink) {
 /// like `run_case`, with the argv spelling of the C13 tokens
 fn run_case13(ctx: &Ctx, cwd: &std::path::Path, flag: &str, roots: &[(Vec<u8>, String)], toks: &[String], rng: &mut Rng) -> (String, String) {
     let mut args: Vec<String> = vec![];
-    if flag != "P" { args.push(format!("-{flag}")); }
+    // among several of -H, -L, -P the last one decides: a third of the runs put an overridden flag first
+    if rng.chance(1, 3) {
+        let other: Vec<&str> = ["-H", "-L", "-P"].into_iter().filter(|f| f[1..] != *flag).collect();
+        args.push((*rng.pick(&other)).to_string());
+        args.push(format!("-{flag}"));
+    } else if flag != "P" { args.push(format!("-{flag}")); }
     for (sp, _) in roots { args.push(String::from_utf8(sp.clone()).unwrap()); }
     let mut wire_toks: Vec<String> = vec![];
     for t in toks {
